@@ -81,7 +81,12 @@ func rulePageMatch(c *Ctx, rule, pkg string) {
 				c.Analysed(FnName(fn))
 				matched := fi.HoldsWhere(b, func(ft Fact) bool {
 					k, isCall := ft.V.(*ssa.Call)
-					return ft.Kind == "true" && ft.Pol && isCall && invokeNamed(k, "EvalBool")
+					if ft.Kind != "true" || !ft.Pol || !isCall {
+						return false
+					}
+					// ... or the scanner says it is positioned on a row (it positions itself on matching rows only:
+					// the step functions are checked by this rule themselves)
+					return invokeNamed(k, "EvalBool") || (invokeNamed(k, "IsValid") && !k.Call.IsInvoke() && len(k.Call.Args) == 1 && len(fn.Params) > 0 && k.Call.Args[0] == ssa.Value(fn.Params[0]))
 				})
 				c.Check(matched, rule, FnName(fn)+": "+f.Name()+"++", p.Pos(st.Pos()), "the paging counter advances only for rows that matched the filter", "the paging counter `"+f.Name()+"` advances for rows that were not (yet) tested against the filter: skip/limit would count non-matching rows")
 			}
@@ -843,23 +848,75 @@ func ruleC02Scanner(c *Ctx) {
 	// the counting loop of uniqueIndexScanner.ScanCursor advances with nextUnpaged, never with the paged Next
 	sc := p.SSAFunc(p.Method("boltz", "uniqueIndexScanner", "ScanCursor"))
 	c.Analysed(FnName(sc))
-	// stated on roles, not on helper names: the calls inside the counting loop that advance the cursor
-	// (callees that may invoke Next on a set cursor) never read a paging value — a paged step stops at
-	// the limit and the total would be truncated
+	// stated on effects, not on helper names: the counting scan ends when the scanner's current row
+	// becomes nil.  Nowhere in what the counting loop executes (its own body and the functions it calls
+	// statically, helpers expanded) may that marker be cleared under a condition that depends on a
+	// paging value — a step that stops at the limit truncates the total.
 	limitF, offsetF := pagingFields(c, "boltz")
-	isPagingLoad := func(in ssa.Instruction) bool {
-		u, ok := in.(*ssa.UnOp)
+	isPagingLoad := func(v ssa.Value) bool {
+		u, ok := v.(*ssa.UnOp)
 		if !ok || u.Op != token.MUL {
 			return false
 		}
 		f, _ := loadedField(u)
 		return f != nil && (sameVar(f, limitF) || sameVar(f, offsetF) || f.Name() == "collected")
 	}
-	cg := p.CallGraph()
-	advances := cg.Summarize(func(in ssa.Instruction) bool {
-		call, ok := in.(ssa.CallInstruction)
-		return ok && call.Common().IsInvoke() && call.Common().Method.Name() == "Next" && len(call.Common().Args) == 0
-	})
+	var dependsOnPaging func(v ssa.Value, depth int) bool
+	dependsOnPaging = func(v ssa.Value, depth int) bool {
+		if v == nil || depth > 5 {
+			return false
+		}
+		if isPagingLoad(v) {
+			return true
+		}
+		switch x := v.(type) {
+		case *ssa.BinOp:
+			return dependsOnPaging(x.X, depth+1) || dependsOnPaging(x.Y, depth+1)
+		case *ssa.UnOp:
+			return dependsOnPaging(x.X, depth+1)
+		case *ssa.Phi:
+			for _, e := range x.Edges {
+				if dependsOnPaging(e, depth+1) {
+					return true
+				}
+			}
+		}
+		return false
+	}
+	curFld := p.Field("boltz", "uniqueIndexScanner", "current")
+	// clearsUnderPaging: a feasible path in fn reaches `scanner.current = nil` after taking a branch on a
+	// paging-dependent condition
+	clearsUnderPaging := func(fn *ssa.Function, startBlock *ssa.BasicBlock, within func(*ssa.BasicBlock) bool) (bool, string) {
+		fi := factsOf(fn)
+		for _, b := range fn.Blocks {
+			if within != nil && !within(b) {
+				continue
+			}
+			for _, in := range b.Instrs {
+				st, ok := in.(*ssa.Store)
+				if !ok || !isNilConst(st.Val) {
+					continue
+				}
+				if f, _ := fieldOfAddr(st.Addr); !sameVar(f, curFld) {
+					continue
+				}
+				// the store is governed by a paging-dependent condition (a fact that holds on every path
+				// to it) and is feasibly reachable
+				governed := fi.HoldsWhere(b, func(f Fact) bool { return f.Kind == "true" && dependsOnPaging(f.V, 0) })
+				if !governed {
+					continue
+				}
+				reach := &pathSearch{fn: fn, fi: fi, start: startBlock, target: func(x ssa.Instruction) bool { return x == ssa.Instruction(st) }}
+				if within != nil {
+					reach.skipEdge = func(from, to *ssa.BasicBlock) bool { return !within(to) }
+				}
+				if reach.run() {
+					return true, p.Pos(st.Pos())
+				}
+			}
+		}
+		return false, ""
+	}
 	loops := loopsOf(sc)
 	var countLoop *Loop
 	for _, b := range sc.Blocks {
@@ -874,55 +931,36 @@ func ruleC02Scanner(c *Ctx) {
 		}
 	}
 	okCount, whyCount := countLoop != nil, "no counting loop found in the scan"
-	nSteps := 0
 	if okCount {
-		for b := range countLoop.Blocks {
-			for _, in := range b.Instrs {
-				call, ok := in.(ssa.CallInstruction)
-				if !ok || call.Common().IsInvoke() {
-					continue
-				}
-				adv, _ := advances.CallMay(call.Common())
-				if !adv {
-					continue
-				}
-				nSteps++
-				// through static calls only: the step's own code (dynamic dispatch into cursors is the
-				// wrapped cursor's business, not the step's)
-				var readsStatic func(f *ssa.Function, depth int) bool
-				seenF := map[*ssa.Function]bool{}
-				readsStatic = func(f *ssa.Function, depth int) bool {
-					if f == nil || f.Blocks == nil || seenF[f] || depth > 4 {
-						return false
-					}
-					seenF[f] = true
-					for _, bb := range f.Blocks {
-						for _, i2 := range bb.Instrs {
-							if isPagingLoad(i2) {
-								return true
-							}
-							if k, isCall := i2.(ssa.CallInstruction); isCall && !k.Common().IsInvoke() {
-								if readsStatic(k.Common().StaticCallee(), depth+1) {
-									return true
-								}
-							}
-						}
-					}
-					return false
-				}
-				if readsStatic(call.Common().StaticCallee(), 0) {
-					okCount, whyCount = false, "the counting scan advances with a step that reads paging values ("+describeInstr(call)+"): it stops at the limit, so the total would be truncated"
+		if bad, where := clearsUnderPaging(sc, countLoop.Header, func(b *ssa.BasicBlock) bool { return countLoop.Blocks[b] }); bad {
+			okCount, whyCount = false, "inside the counting loop the scanner's current row is cleared at "+where+" under a condition on a paging value"
+		}
+		seenF := map[*ssa.Function]bool{}
+		var visit func(f *ssa.Function, depth int)
+		visit = func(f *ssa.Function, depth int) {
+			if f == nil || f.Blocks == nil || seenF[f] || depth > 3 || !okCount {
+				return
+			}
+			seenF[f] = true
+			if bad, where := clearsUnderPaging(f, f.Blocks[0], nil); bad {
+				okCount, whyCount = false, "the counting scan advances through "+FnName(f)+", which clears the current row at "+where+" under a condition on a paging value: it stops at the limit, so the total would be truncated"
+				return
+			}
+			for _, k := range callsIn(f) {
+				if !k.Common().IsInvoke() {
+					visit(k.Common().StaticCallee(), depth+1)
 				}
 			}
 		}
-		if nSteps == 0 {
-			c.Undecided("C02.COUNT", FnName(sc)+": unpaged step", p.Pos(sc.Pos()), "the cursor is advanced inside the counting loop itself: cannot separate the step from the page bookkeeping")
-			okCount = true
+		for b := range countLoop.Blocks {
+			for _, in := range b.Instrs {
+				if call, ok := in.(ssa.CallInstruction); ok && !call.Common().IsInvoke() {
+					visit(call.Common().StaticCallee(), 0)
+				}
+			}
 		}
 	}
-	if nSteps > 0 || !okCount {
-		c.Check(okCount, "C02.COUNT", FnName(sc)+": unpaged step", p.Pos(sc.Pos()), "the step that advances the cursor inside the counting loop reads no paging value, directly or in a callee", whyCount)
-	}
+	c.Check(okCount, "C02.COUNT", FnName(sc)+": unpaged step", p.Pos(sc.Pos()), "nothing the counting loop executes (body and static callees) clears the scanner's current row under a paging-dependent condition", whyCount)
 	// NewScanner: id order -> uniqueIndexScanner with matching direction, otherwise sortingScanner
 	ns := p.SSAFunc(p.Method("boltz", "BaseStore", "NewScanner"))
 	c.Analysed(FnName(ns))
